@@ -481,7 +481,8 @@ def run(ctx, col):
             generated_program_texts=origins["program"],
             rule="every text emitted for: all accepted corpus parts x 2 layouts, the bundled sub-routines x 2 layouts, and %d generated programs x 2 layouts "
             "(operator/type space of C02, all assignment operators x type pairs, comparison/logical results mixed with arithmetic, operand re-use 1..5 times over 1..3 statements, "
-            "constant folding with dead operands, control-flow nests); each text is parsed by the independent C-level reader and checked by the %s checker on all paths; "
+            "constant folding with dead operands (also side-effecting, nested conditional, next to further value-producing operations), control-flow nests, a boolean-sorted expression in every operand position, an integer-valued expression in every truth-value position, "
+            "every callable x argument kind x statement context, every sink (stores, addresses, register / pair / predicate / alias writes, jump, argument, condition, cast) x 38 source kinds, read-write operand patterns); each text is parsed by the independent C-level reader and checked by the %s checker on all paths; "
             "distinct = distinct (origin, layout, source) triples, each a non-empty emitted body" % (len(specs), col),
             exhaustive=True,
             **extra
